@@ -102,6 +102,25 @@ def allDefaultedIds : List Call → List Made → List (Option Val)
   | call :: cs, m :: ms => defaultedIds call m ++ allDefaultedIds cs ms
   | _, _ => []
 
+/-! ### histories on one metamodel: creations interleaved with the user's own `next()` / `peek()` on the generator -/
+
+inductive HOp where
+  | create (c : Call)          -- MetaModel.new(…)
+  | next                       -- next(m.id_generator): the value is handed to the caller, not to an instance
+  | peek                       -- m.id_generator.peek()
+
+/-- the instances made, with their calls, and the final generator position -/
+def runHist (stream : Nat → Int) : List HOp → Nat → List (Call × Made) × Nat
+  | [], pos => ([], pos)
+  | .create c :: r, pos =>
+    let (m, pos') := newOne stream c pos
+    let (ms, pos'') := runHist stream r pos'
+    ((c, m) :: ms, pos'')
+  | .next :: r, pos => runHist stream r (pos + 1)
+  | .peek :: r, pos => runHist stream r pos
+
+def histDefaultedIds (l : List (Call × Made)) : List (Option Val) := l.flatMap (fun cm => defaultedIds cm.1 cm.2)
+
 /-! ### `IntegerGenerator`, as the code is written
 
     class IdGenerator:       __init__: self._current = self.readfunc()
